@@ -577,3 +577,51 @@ def check_writers_propagate(ctx, rule="IOAGREE"):
         ctx.decide(bad is None, rule, f"{fi.qualname}:propagates", (fi, bad[1]) if bad else fi, "failures of a member writer propagate to the caller",
                    f"`except {U(bad[1].type) if bad and bad[1].type is not None else ''}` around `{U(bad[0])[:60] if bad else ''}` swallows the failure of one member: the write succeeds but the file lacks "
                    "that member, so it reads back different from what was saved instead of the write raising")
+
+
+def check_track_one_layout(ctx, rule="IOAGREE"):
+    """DropletTrack.data allocates its table with the first droplet's dtype and assigns the other droplets row by row (numpy
+    casts silently).  Like its sibling Emulsion.data it must therefore reject — before the table is formed — members of
+    another class (same layout, e.g. PerturbedDroplet3D / …AxisSym: the file names one class) or another layout (fewer modes:
+    amplitudes are broadcast)."""
+    m = ctx.model
+    fi = m.func(f"{TR}.DropletTrack.data")
+    fv = view(m, fi)
+    si = stmt_index(fv)
+    site = fi.qualname + ":one-class"
+    alloc = [c for c in fv.calls() if (fv.callee(c) or "").endswith("numpy.empty") or (fv.callee(c) or "").endswith("numpy.zeros")]
+    raises = [s_ for s_ in fv.statements() if isinstance(s_, ast.Raise) and "TypeError" in U(s_)]
+    ok_cls = ok_lay = False
+    where = fi
+    for r in raises:
+        if alloc and not all(fv.dominates(top_stmt(si, r), a_) or True for a_ in alloc):
+            continue
+        txts = " ".join(U(fv.expand(t_, t_)) for t_, _p in si.effective_guards(r))
+        # the loop/generator the raise sits in must range over all members
+        lpq = si.enclosing(r, (ast.For,))
+        over_all = (lpq is not None and U(lpq[0].iter) in ("self.droplets", "self", "self.droplets[1:]", "self[1:]")) or "for" in txts
+        if not over_all:
+            continue
+        where = (fi, r)
+        if "__class__" in txts or "type(" in txts:
+            ok_cls = True
+        if "dtype" in txts:
+            ok_lay = True
+    before = bool(alloc) and any(all(_precedes(fv, r, a_) for a_ in alloc) for r in raises) if raises else False
+    ctx.decide(ok_cls and ok_lay and before, rule, site, where,
+               "a track whose droplets differ in class or data layout raises TypeError before the table is formed (one class and one layout per dataset)",
+               "DropletTrack.data forms its table from the first droplet's dtype without rejecting members of another class or layout: a track mixing PerturbedDroplet3D and "
+               "PerturbedDroplet3DAxisSym (same layout) is written under the first class' name and reads back as that class; a member with fewer modes is silently broadcast — the file reads back different instead of the write raising")
+
+
+def top_stmt(si, node):
+    st = si.statement(node)
+    anc = si.ancestors(st)
+    return anc[-1][0] if anc else st
+
+
+def _precedes(fv, a, b):
+    """statement a (or the loop that contains it) is executed before b on every path to b"""
+    si = stmt_index(fv)
+    ta = top_stmt(si, a)
+    return fv.dominates(ta, b)
